@@ -128,12 +128,26 @@ Proof.
 Qed.
 
 (* ---- edition values ---------------------------------------------------------------------------------------------- *)
-Lemma set_edition cfgv st now v :
+Lemma nth_set_nth_same l i v : (i < List.length l)%nat -> nth i (set_nth l i v) 0 = v.
+Proof. revert i. induction l as [|x l IH]; intros i H; [cbn in H; lia|]. destruct i as [|k]; [reflexivity|]. cbn [set_nth nth]. apply IH. cbn in H. lia. Qed.
+
+(* every configuration change validates the edition that is in the configuration afterwards *)
+Lemma set_config_validates cfgv st now slot v :
+  let '(out, cfgv', _, _) := step_op cfgv st now (OSetCfg slot v) in
+  cfgv' = set_nth cfgv (Z.to_nat slot) v /\
+  (mem (nth 6 cfgv' 0) iso_editions = true -> out = []) /\ (mem (nth 6 cfgv' 0) iso_editions = false -> out = [2; err_code EConfig]).
+Proof.
+  cbn [step_op]. split; [reflexivity|]. unfold mem, iso_editions. cbn [existsb]. rewrite orb_false_r.
+  set (e := nth 6 (set_nth cfgv (Z.to_nat slot) v) 0).
+  destruct ((e =? 2006) || ((e =? 2013) || (e =? 2020))) eqn:E.
+  - replace ((e =? 2006) || (e =? 2013) || (e =? 2020)) with true by lia. split; [reflexivity|discriminate].
+  - replace ((e =? 2006) || (e =? 2013) || (e =? 2020)) with false by lia. split; [discriminate|reflexivity].
+Qed.
+
+Lemma set_edition cfgv st now v : (6 < List.length cfgv)%nat ->
   let '(out, cfgv', _, _) := step_op cfgv st now (OSetCfg 6 v) in
   (mem v iso_editions = true -> out = []) /\ (mem v iso_editions = false -> out = [2; err_code EConfig]).
 Proof.
-  cbn [step_op]. unfold mem, iso_editions. cbn [existsb]. rewrite orb_false_r. change (6 =? 6) with true. cbn [andb].
-  destruct ((v =? 2006) || ((v =? 2013) || (v =? 2020))) eqn:E.
-  - replace ((v =? 2006) || (v =? 2013) || (v =? 2020)) with true by lia. split; [reflexivity|discriminate].
-  - replace ((v =? 2006) || (v =? 2013) || (v =? 2020)) with false by lia. split; [discriminate|reflexivity].
+  intros Hl. pose proof (set_config_validates cfgv st now 6 v) as H. cbn [step_op] in *. destruct H as (_ & H1 & H2).
+  change (Z.to_nat 6) with 6%nat in *. rewrite (nth_set_nth_same cfgv 6 v Hl) in *. split; assumption.
 Qed.
